@@ -277,8 +277,28 @@ def _expand_proc(h: Helper, call: ast.Call, recv, st: ast.stmt) -> Optional[List
         if not trivial and isinstance(rv, ast.Name) and getattr(h, "flat_body", None) is not None and len(st.targets) == 1 \
                 and isinstance(st.targets[0], (ast.Name, ast.Attribute)):
             sunk = _sink_result(out, rv.id, lambda e: ast.Assign(targets=[copy.deepcopy(st.targets[0])], value=e))
+        merged = False
+        if sunk is None and not trivial and isinstance(rv, ast.Name) and len(st.targets) == 1 and isinstance(st.targets[0], ast.Name) \
+                and rv.id in rename.values():
+            # `t = h(..)` where h builds its result in a local r: r IS t when t is not read any more once r has been bound
+            tname, rname = st.targets[0].id, rv.id
+            first = next((i for i, x in enumerate(out) if any(isinstance(y, ast.Name) and y.id == rname and isinstance(y.ctx, ast.Store) for y in ast.walk(x))), None)
+            if first is not None:
+                later_reads = any(isinstance(y, ast.Name) and y.id == tname and isinstance(y.ctx, ast.Load) for x in out[first + 1:] for y in ast.walk(x))
+                # in the binding statement itself the target may be read on the right-hand side (`r = copy(t)`)
+                stores_t = any(isinstance(y, ast.Name) and y.id == tname and isinstance(y.ctx, ast.Store) for x in out for y in ast.walk(x))
+                if not later_reads and not stores_t:
+                    class _Rn(ast.NodeTransformer):
+                        def visit_Name(self, n):
+                            if n.id == rname:
+                                return ast.copy_location(ast.Name(id=tname, ctx=n.ctx), n)
+                            return n
+                    out = [_Rn().visit(x) for x in out]
+                    merged = True
         if sunk is not None:
             out = sunk
+        elif merged:
+            pass
         elif not trivial:
             out.append(ast.Assign(targets=st.targets, value=rv))
     elif isinstance(st, ast.AnnAssign):
@@ -593,6 +613,26 @@ def inline_new_helpers(trees: Dict[str, ast.Module], known: Set[str]) -> List[st
                 return node
 
             visit_AsyncFunctionDef = visit_FunctionDef
+
+            def visit_keyword(self, node: ast.keyword):
+                # a one-expression helper handed over as a VALUE (`key=compound_priority_of`) is the lambda it abbreviates
+                nonlocal changed
+                if isinstance(node.value, ast.Name) and node.value.id in uniq and uniq[node.value.id].kind == "expr" and uniq[node.value.id].cls is None \
+                        and not any(uniq[node.value.id].fn is s for s in self.stack):
+                    h = uniq[node.value.id]
+                    a = copy.deepcopy(h.fn.args)
+                    for x in a.posonlyargs + a.args + a.kwonlyargs:
+                        x.annotation = None
+                    lam = ast.Lambda(args=a, body=copy.deepcopy(_body_wo_doc(h.fn)[0].value))
+                    ast.copy_location(lam, node.value)
+                    ast.fix_missing_locations(lam)
+                    node.value = lam
+                    changed = True
+                    if h.name not in expanded:
+                        expanded.append(h.name)
+                    return node
+                self.generic_visit(node)
+                return node
 
             def visit_Call(self, node: ast.Call):
                 nonlocal changed
